@@ -27,6 +27,9 @@ pub enum Op {
     NakUnknown,
     CumAck,
     RecoveryTick,
+    /// k housekeeping-style recovery ticks, each after `dt` ms; `ramp` feeds a rising RTT sample before every tick
+    /// (keeps the Kalman velocity above the 2.0 gate so the step is halved)
+    RecoveryRun(u16, u8, bool),
     RttSample(u16),
     MarkForRecovery,
     ResetForReconnect,
@@ -73,6 +76,7 @@ fn op() -> impl Strategy<Value = Op> {
         1 => Just(Op::NakUnknown),
         2 => Just(Op::CumAck),
         8 => Just(Op::RecoveryTick),
+        3 => (prop_oneof![5u16..40, 60u16..260], 0u8..5, any::<bool>()).prop_map(|(k, d, r)| Op::RecoveryRun(k, d, r)),
         3 => prop_oneof![1u16..50, 20u16..2000, Just(10_000u16)].prop_map(Op::RttSample),
         1 => Just(Op::MarkForRecovery),
         1 => Just(Op::ResetForReconnect),
@@ -104,6 +108,7 @@ pub fn check(case: &Case, obs: &mut Obs) -> CheckResult {
     let mut fr_toggled = false;
     let mut kinds_recent: Vec<(u64, u8)> = Vec::new();
     let mut dense = false;
+    let mut gated_fast_ticks = 0u32;
 
     for (i, op) in case.ops.iter().enumerate() {
         let w0 = s.c.window;
@@ -114,7 +119,7 @@ pub fn check(case: &Case, obs: &mut Obs) -> CheckResult {
             Op::EarnedAck | Op::AckWithInFlight(_) | Op::AckBurst(_) => 1,
             Op::GlobalAck => 2,
             Op::Nak | Op::NakBurst(_) => 3,
-            Op::RecoveryTick => 4,
+            Op::RecoveryTick | Op::RecoveryRun(..) => 4,
             Op::MarkForRecovery | Op::ResetForReconnect | Op::Reg3 => 5,
         };
         #[derive(PartialEq)]
@@ -220,6 +225,33 @@ pub fn check(case: &Case, obs: &mut Obs) -> CheckResult {
                 s.c.perform_window_recovery(s.now);
                 Dir::Up
             }
+            Op::RecoveryRun(k, d, ramp) => {
+                const DT: &[u64] = &[301, 501, 1001, 2001, 10_001];
+                let dt = DT[*d as usize % DT.len()];
+                let mut rtt = 40u64;
+                for j in 0..*k {
+                    s.now += dt;
+                    if *ramp {
+                        rtt += 6;
+                        s.c.rtt.update_estimate(rtt, s.now);
+                    }
+                    let b0 = s.c.window;
+                    let f0 = s.c.congestion.fast_recovery_mode;
+                    s.c.perform_window_recovery(s.now);
+                    let b1 = s.c.window;
+                    let f1 = s.c.congestion.fast_recovery_mode;
+                    vensure!((1000..=60_000).contains(&b1) && b1 >= b0, "recovery-step", "op {i} tick {j} of run: recovery moved window {} -> {}", b0, b1);
+                    vensure!(!(f0 && !f1) || b1 >= 12_000, "fast-recovery-left", "op {i} tick {j} of run: fast recovery left at window {} (velocity {:.2})", b1, s.c.get_rtt_velocity());
+                    vensure!(f0 || !f1, "fast-recovery-entered", "op {i} tick {j} of run: recovery tick entered fast recovery");
+                    if f0 != f1 {
+                        fr_toggled = true;
+                    }
+                    if *ramp && s.c.get_rtt_velocity() > 2.0 && f0 {
+                        gated_fast_ticks += 1;
+                    }
+                }
+                Dir::Up
+            }
             Op::RttSample(ms) => {
                 s.c.rtt.update_estimate(*ms as u64, s.now);
                 Dir::Same
@@ -280,6 +312,9 @@ pub fn check(case: &Case, obs: &mut Obs) -> CheckResult {
     }
     if dense {
         obs.class("3-kinds-within-1s");
+    }
+    if gated_fast_ticks > 0 {
+        obs.class("velocity-gated-tick-in-fast-recovery");
     }
     obs.nontrivial = touched_bound || fr_toggled || dense;
     if obs.nontrivial {
